@@ -9,7 +9,8 @@ ID = "C08"
 AREA = "c08"
 LEAN_PROPS = "Litep2pVerif.Props.C08"
 THEOREMS = ["alternation", "closed_iff_last", "substream_refers_connected", "open_answered_at_most_once",
-            "open_answered_once_unless_closed", "ids_fresh", "outbound_open_answered_by_loop"]
+            "open_answered_once_unless_closed", "ids_fresh", "outbound_open_answered_by_loop",
+            "force_close_keeps_context"]
 CONSTS = ["PROTOCOL_COMMAND_CHANNEL_SIZE", "YAMUX_MAX_ACK_BACKLOG"]
 _YAMUX = (sorted(glob.glob(os.path.expanduser("~/.cargo/registry/src/*/yamux-0.13.10/src/lib.rs")))
           or sorted(glob.glob(os.path.expanduser("~/.cargo/registry/src/*/yamux-0.13*/src/lib.rs"))) or ["yamux/src/lib.rs"])[0]
@@ -21,14 +22,18 @@ CONST_TABLE = [
 ]
 MANIFEST = {
     "text": "Lean 4 theorems about an operational model of TransportService::{on_connection_established, "
-            "on_connection_closed, open_substream} and its event paths: alternation and ids_fresh for EVERY history "
-            "(feasible or not); closed_iff_last, substream_refers_connected, open_answered_at_most_once and "
+            "on_connection_closed, open_substream, force_close} (plus the methods that only delegate to the manager handle) "
+            "and its event paths: alternation and ids_fresh for EVERY history (feasible or not, with force_close and the "
+            "delegating calls at any point); force_close_keeps_context: force_close changes nothing in the service's state, "
+            "the protocol's observations of everything else and the environment's possibilities are those of the history "
+            "without the call, and exactly the connections of the peer's context are told to close; closed_iff_last, substream_refers_connected, open_answered_at_most_once and "
             "open_answered_once_unless_closed for every history the environment (manager: at most 2 live connections per "
             "peer, fresh ids, close only for announced; connection task: answers only received commands, with the same id) "
             "can produce, written as an explicit acceptor. Tie: the real TransportService with injected "
             "InnerTransportEvents and harness-owned command receivers is run against the model's executable definitions "
-            "(state compared after every drain), plus a property-level grammar oracle on the emitted event stream; thorough "
-            "enumerates every panic-free event order: 1 peer x 3 connections with repetition up to length 7, 2 peers x 2 connections (each event once) up to length 8, 2 peers x 3 connections up to length 5. "
+            "(state compared after every drain and after every force_close), plus a property-level grammar oracle on the emitted event stream; thorough "
+            "enumerates every panic-free event order: 1 peer x 3 connections with repetition up to length 7, 2 peers x 2 connections (each event once) up to length 8, 2 peers x 3 connections up to length 5, "
+            "and force_close at every point: 1 peer x 2 connections + force with repetition up to length 7, 2 peers x 2 connections + one force per peer up to length 6. "
             "outbound_open_answered_by_loop discharges the connection-task half of that environment hypothesis for the TCP "
             "connection task (model Model/Conn/Permits.lean: requested -> yamux open pending -> negotiating -> answered): for "
             "every schedule a pending request stays pending, for the same protocol, until its own future ends; the failure/"
@@ -52,14 +57,19 @@ RULE = ("tcploop (extra area): fixed, burst (257-300 open requests in chunks or 
         "hold, accept, half-close, race, span and random families of checks/tcploop.py with focus C08; c08: "
         "seeded histories over 2 peers x up to 3 connections each: a feasible stream (environment simulated: <=2 live "
         "connections, closes of live connections in either order, opens, command receipt, answers by success/failure, "
-        "dropped tasks, clogged channels of capacity 1-3, foreign id allocations) and an infeasible stream (third "
-        "connections, closes of unknown connections, duplicate/unknown answers, repeated ids); every case ends by "
+        "dropped tasks, clogged channels of capacity 1-3, foreign id allocations, force_close followed by the closes of the "
+        "peer's connections in a random order with substream events between, calls of dial/dial_address/add_known_address/"
+        "local_peer_id/listen+public addresses/unregister_protocol), a force_close-with-overlapping-connections family (12 %: "
+        "two connections, pending/received/answered requests, full or dropped channel, force_close, primary-first or "
+        "secondary-first close, events of the surviving connection between) and an infeasible stream (third "
+        "connections, closes of unknown connections, duplicate/unknown answers, repeated ids, force_close anywhere); every case ends by "
         "draining the service; a case is non-trivial if the protocol saw an established and a closed event and one open "
         "was accepted; distinct = distinct (ops, observations) transcripts by SHA-256")
 TRUSTED_BASE = ["Lean 4.33 kernel", "axioms: propext, Classical.choice, Quot.sound only",
                 "hand-written models Model/Service/Conns.lean, Model/Service/Order.lean tied to transport_service.rs by this run",
-                "adapter /repo/src/verif/c08.rs (injects events through the service's own channel, reads `connections`), "
-                "harness, verif.py, checks/c08.py",
+                "adapter /repo/src/verif/c08.rs (injects events through the service's own channel, reads `connections`, owns the "
+                "command receivers of the connections and of the manager; the manager handle is built with TCP enabled and an "
+                "empty peer table that only add_known_address fills), harness, verif.py, checks/c08.py",
                 "tokio mpsc channels are FIFO with try_send = Closed | Full | Ok as documented",
                 "environment assumptions of Order.lean: manager admits <= 2 connections per peer and is told about a close "
                 "after the protocols (C06/C07), connection ids and substream ids come from shared counters",
@@ -68,7 +78,8 @@ TRUSTED_BASE = ["Lean 4.33 kernel", "axioms: propext, Classical.choice, Quot.sou
                 "advance by the requested amount; on a connection built with sot= the driver takes WHICH outbound requests timed "
                 "out during an operation from the implementation's observation (it cannot know the clock) and checks everything else",
                 "yamux (crate yamux 0.13.10 + litep2p's Control wrapper) is not modelled beyond: open_stream() may never return"]
-ASSUMPTIONS = ["the keep-alive timeout of the adapter (1 h) does not expire during a case, so handles stay Active",
+ASSUMPTIONS = ["the keep-alive timeout of the adapter (1 h) does not expire during a case, so handles stay Active "
+               "(force_close / open_substream on Inactive handles: C09 area, tcploop and node areas)",
                "tcploop timeout rule: a request that was accepted before a `sleep` of at least substream_open_timeout + 400 ms "
                "is taken by the connection task at the start of that operation at the latest (nobody paused, no channel filled)",
                "cooperative scheduling budget of tokio does not hide queued events (the adapter polls until Pending twice)"]
@@ -89,6 +100,7 @@ def gen_feasible(rng, n_ops):
     queue = {}                              # conn -> list of sids queued (processed view of the channel)
     held = {}                               # conn -> sids received, unanswered
     nsub = 0
+    script = []                             # scripted follow-up of a `force`: closes in a chosen order, events between
 
     def drain():
         ops.append("next")
@@ -99,10 +111,59 @@ def gen_feasible(rng, n_ops):
                 proc_conn[q].remove(c)
         del pending[:]
 
+    def close(p, c):
+        live[p].remove(c)
+        if rng.random() < 0.8:
+            ops.append(f"conn_drop {c}")
+            dropped.add(c)
+            queue[c], held[c] = [], []
+        ops.append(f"closed {p} {c}")
+        pending.append(("closed", p, c))
+        held[c] = []
+
+    def force(p):
+        ops.append(f"force {p}")
+        # secondary first, then primary (processed view); a ForceClose occupies a slot of the command channel
+        for c in reversed(proc_conn[p][:2]):
+            if c not in dropped and len(queue[c]) < cap:
+                queue[c].append("F")
+
     for _ in range(n_ops):
         p = rng.choice(PEERS)
         r = rng.random()
-        if r < 0.16:
+        if script and rng.random() < 0.55:
+            kind, q, c = script.pop(0)
+            if kind == "close" and c in live[q]:
+                close(q, c)
+            elif kind == "in" and c in live[q]:
+                ops.append(f"subopen {q} in {c}")
+            elif kind == "open":
+                ops.append(f"open {q}")
+                if proc_conn[q]:
+                    c0 = proc_conn[q][0]
+                    if c0 not in dropped and len(queue[c0]) < cap:
+                        queue[c0].append(nsub)
+                    nsub += 1
+            elif kind == "next":
+                drain()
+        elif r < 0.05:
+            # force_close: any peer at any time; with two live connections script both close orders afterwards
+            if pending and rng.random() < 0.7:
+                drain()
+            up = [q for q in PEERS if proc_conn[q]]
+            if up and rng.random() < 0.85:
+                p = rng.choice(up)
+            force(p)
+            cs = list(live[p])
+            if cs and rng.random() < 0.8:
+                rng.shuffle(cs)
+                script[:] = [("close", p, cs[0])]
+                if len(cs) > 1:
+                    mid = [("in", p, cs[1]), ("open", p, 0), ("next", 0, 0)]
+                    rng.shuffle(mid)
+                    script += mid[:rng.randrange(0, 4)] + [("close", p, cs[1])]
+                script.append(("next", 0, 0))
+        elif r < 0.16:
             if len(live[p]) < 2 and nxt[p] < 9:
                 c = p * 10 + nxt[p]
                 nxt[p] += 1
@@ -112,15 +173,7 @@ def gen_feasible(rng, n_ops):
                 pending.append(("est", p, c))
         elif r < 0.28:
             if live[p]:
-                c = rng.choice(live[p])
-                live[p].remove(c)
-                if rng.random() < 0.8:
-                    ops.append(f"conn_drop {c}")
-                    dropped.add(c)
-                    queue[c], held[c] = [], []
-                ops.append(f"closed {p} {c}")
-                pending.append(("closed", p, c))
-                held[c] = []
+                close(p, rng.choice(live[p]))
         elif r < 0.50:
             ops.append(f"open {p}")
             if proc_conn[p]:
@@ -134,7 +187,9 @@ def gen_feasible(rng, n_ops):
                 c = rng.choice(cs)
                 ops.append(f"conn_recv {c}")
                 if queue[c]:
-                    held[c].append(queue[c].pop(0))
+                    x = queue[c].pop(0)
+                    if x != "F":
+                        held[c].append(x)
         elif r < 0.80:
             cs = [c for c in live[p] if held.get(c)]
             if cs:
@@ -150,6 +205,8 @@ def gen_feasible(rng, n_ops):
             nsub += k
         elif r < 0.90:
             ops.append(f"dialfail {p}")
+        elif r < 0.93:
+            ops.extend(manager_ops(rng))
         else:
             drain()
         if pending and rng.random() < 0.4:
@@ -157,6 +214,64 @@ def gen_feasible(rng, n_ops):
     ops.append("next")
     for p in PEERS:
         ops.append(f"open {p}")
+    ops.append("next")
+    return ops
+
+
+def manager_ops(rng):
+    """Calls of methods that only delegate to the manager handle (they never touch the service's state)."""
+    p = rng.choice(PEERS + PEERS + [0, 3])
+    kind = rng.choice(["tcp", "tcp", "tcpp", "tcpp", "wrong", "udp", "unspec"])
+    port = rng.choice([1, 2, 3])
+    r = rng.random()
+    if r < 0.3:
+        return [f"known {p} {kind} {port}", f"dial {p}"] + ["mgr_recv"] * rng.randrange(0, 2)
+    return [rng.choice([f"known {p} {kind} {port}", f"dial {p}", f"dial_addr {p} {kind} {port}", "mgr_recv", "mgr_recv",
+                        "lpid", "addrs", "unregister"])]
+
+
+def gen_force_overlap(rng):
+    """`force_close` while two connections to a peer overlap, then every order of the two closes, with substream
+    events, open requests and drains in between (the code path nothing else reaches: the secondary handle at the
+    time of the call). Sometimes a request is pending or already received, sometimes a channel is full or gone."""
+    cap = rng.choice([1, 2, 2, 3, 4])
+    p = rng.choice(PEERS)
+    a, b = p * 10, p * 10 + 1
+    ops = [f"cfg {cap}", f"est {p} {a}"]
+    if rng.random() < 0.5:
+        ops.append("next")
+    ops += [f"est {p} {b}", "next"]
+    k = rng.randrange(0, 3)
+    ops += [f"open {p}"] * k
+    accepted = min(k, cap)
+    answered = False
+    if accepted and rng.random() < 0.5:
+        ops.append(f"conn_recv {a}")                     # sid 0 is now held by the task of `a`
+        if rng.random() < 0.5:
+            ops += [rng.choice([f"subopen {p} 0 {a}", "subfail 0"])]
+            answered = True
+    if rng.random() < 0.15:
+        ops.append(f"conn_drop {rng.choice([a, b])}")
+    ops.append(f"force {p}")
+    for _ in range(rng.randrange(0, 3)):
+        ops.append(f"conn_recv {rng.choice([a, b])}")
+    if rng.random() < 0.2:
+        ops.append(f"force {p}")
+    first, second = (a, b) if rng.random() < 0.5 else (b, a)
+    if rng.random() < 0.7:
+        ops.append(f"conn_drop {first}")
+    ops.append(f"closed {p} {first}")
+    mid = [f"subopen {p} in {second}", f"open {p}", "next", f"force {p}", f"dialfail {p}", f"conn_recv {second}",
+           f"subopen {p} in {second}", "next"]
+    rng.shuffle(mid)
+    ops += mid[:rng.randrange(0, 6)]
+    if rng.random() < 0.7:
+        ops.append(f"conn_drop {second}")
+    ops += [f"closed {p} {second}", "next", f"open {p}", f"force {p}"]
+    if rng.random() < 0.5:
+        c = p * 10 + 2
+        ops += [f"est {p} {c}", "next", f"open {p}", f"force {p}", f"conn_recv {c}", f"conn_recv {c}",
+                f"closed {p} {c}", "next"]
     ops.append("next")
     return ops
 
@@ -184,6 +299,10 @@ def gen_infeasible(rng, n_ops):
             ops.append(f"subfail {rng.choice([0, 1, 2, 3, 7])}")
         elif r < 0.88:
             ops.append(f"bump {rng.choice([1, 3])}")
+        elif r < 0.93:
+            ops.append(f"force {p}")
+        elif r < 0.95:
+            ops.extend(manager_ops(rng))
         else:
             ops.append("next")
     ops.append("next")
@@ -195,6 +314,8 @@ def would_panic(seq):
     connection)? Used only to prune the enumeration (a panic ends the case)."""
     conns = {}
     for kind, p, c in seq:
+        if kind == "force":
+            continue
         if kind == "est":
             ctx = conns.get(p)
             if ctx is None:
@@ -218,6 +339,9 @@ def would_panic(seq):
 def case_of(seq):
     ops = ["cfg 2"]
     for kind, p, c in seq:
+        if kind == "force":
+            ops.append(f"force {p}")
+            continue
         ops.append(f"{kind} {p} {c}")
         ops.append("next")
     for p in sorted({p for _, p, _ in seq}):
@@ -255,6 +379,11 @@ def exhaustive_cases():
     cases = [case_of(s) for s in enumerate_orders(one_peer, 7, False)]      # with repetition
     cases += [case_of(s) for s in enumerate_orders(two_peers, 8, True)]     # each event at most once
     cases += [case_of(s) for s in enumerate_orders(two_peers3, 5, True)]
+    # `force_close` at every point of every order of establish/close of two connections (with repetition)
+    one_peer_force = [(k, 1, c) for c in (10, 11) for k in ("est", "closed")] + [("force", 1, 0)]
+    cases += [case_of(s) for s in enumerate_orders(one_peer_force, 7, False)]
+    two_peers_force = two_peers + [("force", 1, 0), ("force", 2, 0)]
+    cases += [case_of(s) for s in enumerate_orders(two_peers_force, 6, True)]
     return cases
 
 
@@ -266,6 +395,16 @@ def corpus():
         ["cfg 2", "est 1 10", "next", "open 1", "open 1", "open 1", "conn_recv 10", "subfail 0", "conn_recv 10",
          "subopen 1 1 10", "next", "conn_drop 10", "closed 1 10", "next", "open 1"],
         ["cfg 1", "closed 1 10", "next"],
+        # force_close with overlapping connections, primary first / secondary first (seeded change C08-e1)
+        ["cfg 2", "est 1 10", "next", "est 1 11", "next", "force 1", "conn_recv 10", "conn_recv 11", "closed 1 10",
+         "subopen 1 in 11", "next", "open 1", "closed 1 11", "next", "force 1"],
+        ["cfg 2", "est 1 10", "est 1 11", "next", "force 1", "closed 1 11", "subopen 1 in 10", "next", "closed 1 10",
+         "next"],
+        ["cfg 1", "est 1 10", "est 1 11", "next", "open 1", "force 1", "conn_recv 10", "force 1", "conn_recv 10",
+         "conn_recv 11", "next"],
+        ["cfg 2", "lpid", "addrs", "known 1 tcp 1", "known 1 tcpp 1", "known 1 wrong 2", "known 2 udp 1", "dial 1",
+         "dial 2", "dial 0", "dial_addr 1 tcp 1", "dial_addr 1 tcpp 1", "unregister", "mgr_recv", "mgr_recv", "mgr_recv",
+         "mgr_recv", "est 1 10", "next", "dial 1", "next"],
     ]
 
 
@@ -273,7 +412,8 @@ def gen_cases(rng, tier):
     n = {"quick": 3000, "thorough": 50000, "search": 5000}[tier]
     for i in range(n):
         k = rng.choice([6, 12, 20, 30, 45])
-        yield gen_feasible(rng, k) if rng.random() < 0.7 else gen_infeasible(rng, k)
+        r = rng.random()
+        yield gen_force_overlap(rng) if r < 0.12 else gen_feasible(rng, k) if r < 0.72 else gen_infeasible(rng, k)
     if tier == "thorough":
         for c in exhaustive_cases():
             yield c
@@ -335,6 +475,9 @@ def oracle(case, out):
     chan_dead = set()
     created = set()                # connections whose command channel exists (est injected)
     pending = []                   # injected, unprocessed: (step, tokens)
+    last_conns = "[]"              # `connections` as printed by the last drain
+    force_sent = {}                # conn -> ForceClose commands it must have been sent and has not received yet
+    calls = []                     # API calls since the last drain
     for i, op in enumerate(case):
         if i >= len(out):
             break
@@ -344,8 +487,11 @@ def oracle(case, out):
             break
         if o == "bad-op":
             continue
+        if t[0] in ("open", "force", "known", "dial", "dial_addr", "unregister", "lpid", "addrs"):
+            calls.append(op)
         if t[0] == "cfg":
             cap = max(1, int(t[1]))
+            last_conns = "[]"
         elif t[0] in ("est", "closed", "subopen", "subfail", "dialfail"):
             if o != "ok":
                 v("inject", f"adapter could not inject: {o}", i)
@@ -357,6 +503,43 @@ def oracle(case, out):
             if c in created:           # the adapter ignores a drop of a channel that does not exist yet
                 chan_dead.add(c)
                 chan_q[c] = 0
+                force_sent[c] = 0
+        elif t[0] == "force":
+            # `force_close` tells the connections of the peer to close and changes nothing in the peer's context:
+            # a connection stays the protocol's until its own close report arrives
+            p = int(t[1])
+            if o.startswith("panic"):
+                v("panic", f"panic in force_close: {o}", i)
+                break
+            res, _, conns = o.partition(" conns=")
+            if conns != last_conns:                                                                  # A4
+                v("force-changed-context", f"the connection table changed from {last_conns} (last drain) to {conns} (after "
+                  f"force_close) although no connection event was processed; calls since the drain: {', '.join(calls)}", i)
+            if connected.get(p) and res == "err no-peer":
+                v("force-refused", f"peer {p} is connected but force_close says it does not exist", i)
+            if not connected.get(p) and res != "err no-peer":
+                v("force-unconnected", f"force_close for unconnected peer {p} answered {res}", i)
+            if feasible and connected.get(p) and live.get(p):
+                want = None
+                for c in reversed(live[p][:2]):        # secondary first, then the primary, whose result is returned
+                    if c in chan_dead:
+                        want = "err closed"
+                    elif chan_q.get(c, 0) >= cap:
+                        want = "err clogged"
+                    else:
+                        want = "ok"
+                        chan_q[c] = chan_q.get(c, 0) + 1
+                        force_sent[c] = force_sent.get(c, 0) + 1
+                if want != res:
+                    v("force-result", f"force_close for connected peer {p} answered {res}, the primary's channel says {want}", i)
+        elif t[0] in ("lpid", "addrs", "known", "dial", "dial_addr", "unregister", "mgr_recv"):
+            # delegated to the manager handle; nothing of this reaches the protocol's event stream (the model
+            # comparison checks the answers); a panic is a panic
+            if o.startswith("panic"):
+                v("panic", f"panic in {t[0]}: {o}", i)
+                break
+            if t[0] == "lpid" and o != "peer 0":
+                v("local-peer-id", f"local_peer_id answered {o}", i)
         elif t[0] == "bump":
             pass
         elif t[0] == "conn_recv":
@@ -371,6 +554,14 @@ def oracle(case, out):
                 if sid in delivered:
                     v("command-duplicated", f"command {sid} delivered twice", i)
                 delivered.add(sid)
+            elif o == "force-close":
+                c = int(t[1])
+                chan_q[c] = max(0, chan_q.get(c, 0) - 1)
+                if feasible:
+                    if force_sent.get(c, 0) <= 0:
+                        v("force-misrouted", f"connection {c} was told to close but force_close was not called for its peer", i)
+                    else:
+                        force_sent[c] -= 1
             elif feasible and o == "empty" and chan_q.get(int(t[1]), 0) > 0 and int(t[1]) not in chan_dead:
                 v("command-lost", f"connection {t[1]} has {chan_q[int(t[1])]} accepted commands but receives none", i)
         elif t[0] == "open":
@@ -504,6 +695,10 @@ def oracle(case, out):
                     v("answer-lost", f"forwarded {got_ans}, the connection tasks reported {sorted(injected_answers)}", i)
             if panicked:
                 break
+            a = o.find(" conns=")
+            if a >= 0:
+                last_conns = o[a + 7:].split(" ")[0]
+            calls = []
     return bad
 
 
@@ -513,6 +708,12 @@ def stats(case, out, acc):
         bump(acc, "op:" + t)
         if t == "open":
             bump(acc, "open:" + " ".join(o.split()[:2] if o.startswith("err") else o.split()[:1]))
+        if t == "force":
+            res, _, conns = o.partition(" conns=")
+            mine = [x for x in conns.strip("[]").split(",") if x.startswith(op.split()[1] + ":")]
+            bump(acc, "force:" + res + (":overlap" if mine and not mine[0].endswith("/-") else ""))
+        if t in ("dial", "dial_addr"):
+            bump(acc, t + ":" + o)
         if t == "next":
             for e in parse_events(o):
                 bump(acc, "ev:" + e.split(":")[0])
